@@ -1,4 +1,5 @@
 import Pog.Lemmas.ParserSpec
+import Pog.Props.Dc
 import Pog.Props.Extract
 import Pog.Props.Resolve
 import Pog.Lemmas.Parser
@@ -67,6 +68,14 @@ import Pog.Lemmas.ParserFaithful
     extracted_number_enum_is_alias         observation: `number` enums are extracted but rendered as plain aliases
 -/
 -- INDEX Pog.ExtractProps: extract_preserves_wire_keys, extract_preserves_array_nature_counterexample, extract_preserves_array_nature_partial, extracted_enum_has_the_values, enum_pointer, enum_entry_fields, extracted_item_is_a_copy, enum_pass_keeps_items, array_pass_keeps_fields, extract_postconditions_never_fire, reuse_branch_dead, kind_total_and_exclusive, kind_decision, properties_imply_dataclass, properties_never_alias, anonymous_is_skipped, data_wrapper_is_named_dataclass, extracted_number_enum_is_alias, extracted_string_enum_is_enum, extract_idempotent_counterexample, extract_idempotent_partial, extract_enum_pass_idempotent
+/-
+  C02 at the dataclass level (Pog/Model/Dc.lean; proved in Pog/Props/Dc.lean, claimed here), for every schema with distinct property keys:
+    one_field_per_property                 the class body is a permutation of one field per property; wire keys = property keys, each once;
+                                           python names pairwise distinct; `field_mappings` maps every key to its field
+    required_iff_no_default                a field has no default expression iff its property is listed in `required`
+    default_array / default_plain_object / default_absent / default_nonscalar   what an optional field defaults to
+-/
+-- INDEX Pog.DcProps: one_field_per_property, one_field_per_property_generated, mappings_are_the_wire_keys, required_iff_no_default, required_iff_no_default_generated, default_array, default_plain_object, default_absent, default_nonscalar
 namespace Pog.C02
 open Pog Pog.Prs Pog.Trk
 
@@ -87,7 +96,7 @@ example : let d : Decls := [("A".toList, cObj [("b", cRef "B")]), ("B".toList, c
     property map `_parse_properties` returns has the keys already merged from `allOf` followed by the
     declared keys — non-empty, first occurrence, document order, unchanged. -/
 theorem own_properties_one_field_each (decls : Decls) (P : PFn) (parent : Option Str) (allow : Bool)
-    (ps : List (Str × Node)) (acc : List (Str × Nat)) (s : PSt) :
+    (ps : List (Str × Node)) (acc : List (Str × Nat)) (s : Prs.PSt) :
     (parseProps decls P parent allow ps acc s).1.map (·.1) = declaredKeys ps (acc.map (·.1)) :=
   parseProps_keys decls P parent allow ps acc s
 
